@@ -194,30 +194,33 @@ Proof.
   - eapply IH; eauto.
 Qed.
 
-Lemma field_pf_alit C S frs k cn r tv f pf ctx vs :
-  field_pf C S frs k cn r tv f = Ok (pf, ctx) -> p_ann pf = ALit vs ->
+Lemma field_pf_alit C S frs k cn r tv at_ f pf ctx vs :
+  field_pf C S frs k cn r tv at_ f = Ok (pf, ctx) -> p_ann pf = ALit vs ->
   exists tvs, tv = Some tvs /\ vs = sort_strings tvs /\ fn_name f = "__typename".
 Proof.
-  intros H Ha. destruct (field_pf_inv _ _ _ _ _ _ _ _ _ _ H) as [t [a0 [il [Ht [Hl Hp]]]]]. subst pf.
+  intros H Ha. destruct (field_pf_inv _ _ _ _ _ _ _ _ _ _ _ H) as [t [a0 [il [Ht [Hl Hp]]]]]. subst pf.
   cbn [p_ann mk_pfield] in Ha. unfold field_ann_lit in Hl.
   assert (Hno : forall r0, field_type_ann C S frs k (fn_sub f) t true
                    (cn +++ pascal_s (py_field_name C (field_key f))) false = Ok r0 ->
                  Ok (fst r0, snd r0, false) = Ok (a0, ctx, il) -> False).
-  { intros r0 Hr E. inversion E; subst. unfold cond_ann in Ha.
+  { intros r0 Hr E. inversion E; subst. simpl andb in Ha. unfold cond_ann in Ha.
     pose proof (field_type_ann_not_lit _ _ _ _ _ _ _ _ _ vs Hr) as Hn.
     destruct (fn_cond f); [destruct (is_opt (fst r0)); [contradiction | discriminate] | contradiction]. }
   destruct tv as [[|v0 vs0]|].
   - apply bind_ok in Hl. destruct Hl as [r0 [Hr E]]. exfalso. eapply Hno; eauto.
   - destruct (String.eqb (fn_name f) "__typename") eqn:En.
-    + inversion Hl; subst. unfold cond_ann in Ha. inversion Ha.
-      exists (v0 :: vs0). repeat split. apply String.eqb_eq, En.
+    + inversion Hl; subst. unfold cond_ann in Ha.
+      assert (Hv : ALit (sort_strings (v0 :: vs0)) = ALit vs).
+      { destruct (true && at_); [exact Ha|]. destruct (fn_cond f); [| exact Ha].
+        simpl in Ha. discriminate Ha. }
+      inversion Hv. exists (v0 :: vs0). repeat split. apply String.eqb_eq, En.
     + apply bind_ok in Hl. destruct Hl as [r0 [Hr E]]. exfalso. eapply Hno; eauto.
   - apply bind_ok in Hl. destruct Hl as [r0 [Hr E]]. exfalso. eapply Hno; eauto.
 Qed.
 
-Lemma fields_run_pf rec C S frs k cn r tv : forall fs pub pfl extra pub' sk,
-  fields_run rec C S frs k cn r tv fs pub pfl extra pub' sk ->
-  Forall2 (fun f pf => exists ctx, field_pf C S frs k cn r tv f = Ok (pf, ctx)) fs pfl.
+Lemma fields_run_pf rec C S frs k cn r tv at_ : forall fs pub pfl extra pub' sk,
+  fields_run rec C S frs k cn r tv at_ fs pub pfl extra pub' sk ->
+  Forall2 (fun f pf => exists ctx, field_pf C S frs k cn r tv at_ f = Ok (pf, ctx)) fs pfl.
 Proof. induction 1; constructor; eauto. Qed.
 
 (* ---- the variant of a runtime type: the one related type whose typename literal contains it ---- *)
@@ -375,10 +378,10 @@ Qed.
 
 (* ---- the typename field of a nested class ---- *)
 Lemma field_pf_typename C S frs k cn r v vs f pf ctx :
-  fn_name f = "__typename" -> field_pf C S frs k cn r (Some (v :: vs)) f = Ok (pf, ctx) ->
+  fn_name f = "__typename" -> field_pf C S frs k cn r (Some (v :: vs)) true f = Ok (pf, ctx) ->
   p_ann pf = ALit (sort_strings (v :: vs)) /\ p_name pf = py_field_name C (field_key f).
 Proof.
-  intros Hn H. destruct (field_pf_inv _ _ _ _ _ _ _ _ _ _ H) as [t [a0 [il [_ [Hl Hp]]]]]. subst pf.
+  intros Hn H. destruct (field_pf_inv _ _ _ _ _ _ _ _ _ _ _ H) as [t [a0 [il [_ [Hl Hp]]]]]. subst pf.
   unfold field_ann_lit in Hl. rewrite Hn in Hl. simpl in Hl. inversion Hl; subst. split; reflexivity.
 Qed.
 
@@ -388,7 +391,7 @@ Lemma variant_class_facts C S frs f2 g pa cn t sub tvs qc qp :
   no_spread g sub = true ->
   exists fields0 pfl extra,
     resolve f2 S frs false sub t = Ok (fields0, []) /\
-    fields_run (parse_type_def f2 C S frs) C S frs f2 cn t (Some tvs)
+    fields_run (parse_type_def f2 C S frs) C S frs f2 cn t (Some tvs) true
                (add_typename_field true fields0) (pa ++ [cn]) pfl extra qp false /\
     qc = {| c_name := cn; c_bases := ["BaseModel"]; c_fields := pfl |} :: extra /\
     (forall pf vs, In pf pfl -> p_ann pf = ALit vs -> vs = sort_strings tvs).
@@ -398,7 +401,45 @@ Proof.
     [discriminate|].
   pose proof (resolve_no_spread _ _ _ _ _ _ _ _ Hns Hres) as Hm. simpl in Hm. subst mixins.
   exists fields0, pfl, extra. split; [exact Hres|]. split; [exact Hrun|]. split; [exact Hout|].
-  intros pf vs Hin Ha. pose proof (fields_run_pf _ _ _ _ _ _ _ _ _ _ _ _ _ _ Hrun) as HF.
+  intros pf vs Hin Ha. pose proof (fields_run_pf _ _ _ _ _ _ _ _ _ _ _ _ _ _ _ Hrun) as HF.
   destruct (Forall2_In_r _ _ _ _ HF Hin) as [f [_ [ctx Hpf]]].
-  destruct (field_pf_alit _ _ _ _ _ _ _ _ _ _ _ Hpf Ha) as [tvs' [E1 [E2 _]]]. inversion E1; subst. reflexivity.
+  destruct (field_pf_alit _ _ _ _ _ _ _ _ _ _ _ _ Hpf Ha) as [tvs' [E1 [E2 _]]]. inversion E1; subst. reflexivity.
+Qed.
+
+(* ---- interface positions where every possible type has its own variant ---- *)
+Lemma interface_ann_shape S frs k fsub n cn add a c :
+  interface_ann S frs k fsub n false cn add = Ok (a, c) ->
+  (exists c0, a = AClass c0) \/ (exists alts, a = AUnion alts).
+Proof.
+  unfold interface_ann. destruct fsub as [sels|].
+  - destruct (inline_conds k frs sels) as [ics|]; simpl; [| discriminate].
+    destruct (spreads_on_subtypes S frs sels n) as [fos|]; simpl; [| discriminate].
+    destruct ics; [destruct fos|]; intro H;
+      try (inversion H; left; eauto; fail);
+      match type of H with context [existsb ?p ?l] => destruct (existsb p l) end;
+      try discriminate H; inversion H; right; eauto.
+  - intro H. inversion H. left. eauto.
+Qed.
+
+Lemma tv_interface_singleton S base sub rel ifs fs t :
+  lookup_type S base = Some (DInterface ifs fs) ->
+  map r_type rel = abs_names S base sub ->
+  forallb (fun s => mem s (abs_names S base sub)) (possible_types S base) = true ->
+  typename_values S rel t = [t].
+Proof.
+  intros Hl Hrel Hall.
+  assert (Hhead : exists tl, abs_names S base sub = base :: tl).
+  { unfold abs_names. rewrite Hl. destruct (inline_tcs sub); eauto. }
+  destruct Hhead as [tl Hn].
+  unfold typename_values. rewrite Hrel.
+  assert (Hfirst : find (fun n => match lookup_type S n with Some d => is_abstract d | None => false end)
+                        (abs_names S base sub) = Some base) by (rewrite Hn; simpl; rewrite Hl; reflexivity).
+  rewrite Hfirst.
+  destruct (String.eqb base t) eqn:E; [| reflexivity].
+  apply String.eqb_eq in E. subst t. f_equal.
+  assert (G : forall l, (forall x, In x l -> mem x (abs_names S base sub) = true) ->
+                        filter (fun p => negb (mem p (abs_names S base sub))) l = []).
+  { induction l as [|x l IH]; intro H; simpl; [reflexivity|].
+    rewrite (H x (or_introl eq_refl)). simpl. apply IH. intros y Hy. apply H. right; exact Hy. }
+  rewrite forallb_forall in Hall. apply G. intros x Hx. apply (proj1 (dedup_In _ _)) in Hx. apply Hall, Hx.
 Qed.
